@@ -276,6 +276,10 @@ class Engine:
             if ty == "cls":
                 facts.append(t != T.NONECLS)
             return VCls(t, None, None), facts
+        if ty == "adj":
+            t = z3.Const(nm, Ref)
+            facts.append(t != NONE)
+            return VAdj(t), facts
         if ty == "pack":
             t = z3.Const(nm, Ref)
             return VRef(t, None, "opaque"), facts
@@ -902,6 +906,15 @@ class Engine:
                 self.emit(p, "loop", f"{name}/local:{k}", g, meta={"clause": f"loop invariant: value of {k}"})
         if inv.out is not None:
             self.emit(p, "loop", f"{name}/yielded", T.eq(p.out, inv.out), meta={"clause": "loop invariant: yielded so far"})
+        # containers allocated during this iteration and not kept anywhere are garbage: the frame does not speak about them
+        kept = set()
+        dead = getattr(self, "_loop_assigned", {}).get(id(ls), set())      # locals (re)assigned by the body are dead at the loop head
+        for n_, v_ in p.env.items():
+            r_ = getattr(v_, "ref", None)
+            if r_ is not None and n_ not in dead:
+                kept.add(r_.get_id())
+        garbage = [r for (r, _c, k) in p.allocs[getattr(self, "_loop_alloc_mark", {}).get(id(ls), 0):]
+                   if k == "container" and r.get_id() not in kept]
         target = inv.state if inv.state is not None else entry_st
         loose_names = {l.fieldname for l in inv.loose}
         for fname in p.st.differs_from(target):
@@ -912,16 +925,10 @@ class Engine:
             rhs = target.read(fname, *addr)
             if lhs.eq(rhs):
                 continue
-            self.emit(p, "loop", f"{name}/state:{fname}", T.eq(lhs, rhs), meta={"clause": f"loop invariant: heap field {fname}"})
-        # containers allocated during this iteration and not kept anywhere are garbage: the frame does not speak about them
-        kept = set()
-        dead = getattr(self, "_loop_assigned", {}).get(id(ls), set())      # locals (re)assigned by the body are dead at the loop head
-        for n_, v_ in p.env.items():
-            r_ = getattr(v_, "ref", None)
-            if r_ is not None and n_ not in dead:
-                kept.add(r_.get_id())
-        garbage = [r for (r, _c, k) in p.allocs[getattr(self, "_loop_alloc_mark", {}).get(id(ls), 0):]
-                   if k == "container" and r.get_id() not in kept]
+            g_ = T.eq(lhs, rhs)
+            if garbage and addr and addr[0].sort().eq(Ref):
+                g_ = z3.Implies(z3.And(*[addr[0] != gr for gr in garbage]), g_)
+            self.emit(p, "loop", f"{name}/state:{fname}", g_, meta={"clause": f"loop invariant: heap field {fname}"})
         for l in inv.loose:
             old = entry_st._fs(l.fieldname)
             cur = p.st._fs(l.fieldname)
@@ -1002,7 +1009,11 @@ class Engine:
             q.out = inv.out
         # vacuity guard: an invariant that contradicts itself would make every obligation after it pass
         if q.trail and q.trail[-1].endswith(("i", "w")):
-            self.emit(q, "cover", f"cover/invariant-assumed@{q.trail[-1]}", z3.BoolVal(True), expect="sat")
+            done_ = self.__dict__.setdefault("_covered_loops", set())
+            key_ = (getattr(self, "cur_qual", None), q.trail[-1])
+            if key_ not in done_:        # once per loop (the first path reaching it)
+                done_.add(key_)
+                self.emit(q, "cover", f"cover/invariant-assumed@{q.trail[-1]}", z3.BoolVal(True), expect="sat")
 
     def run_for_items(self, st, p: Path, a):
         """for key, val in <attributes>.items(): index-based cut (ghost index L.k)"""
@@ -1105,6 +1116,12 @@ class Engine:
             return self.run_for_range(st, p, *it.value[1:])
         ls = self.loop_spec(st)
         self._enum = False
+        self._item_mapper = None
+        if isinstance(it, VConst) and isinstance(it.value, tuple) and it.value[0] == "adjitems":
+            a = it.value[1]
+            it = VSeq(T.adj_keys(a), "Vertex", "keys")
+            # each item is (key, the iterable stored under it)
+            self._item_mapper = lambda x, a=a: VPyTuple([VRef(x, "Vertex", "obj"), VIter(T.adj_row(a, x), "Vertex", z3.BoolVal(False))])
         if isinstance(it, VConst) and isinstance(it.value, tuple) and it.value[0] == "enumerate":
             it = it.value[1]
             self._enum = True
@@ -1129,6 +1146,8 @@ class Engine:
     def _run_for(self, st, p: Path, it, ls: LoopSpec, seq, ecn):
         enum = getattr(self, "_enum", False)
         self._enum = False
+        mapper = getattr(self, "_item_mapper", None)
+        self._item_mapper = None
         entry_st = p.st.copy()
         entry_env = dict(p.env)
         entry_out = p.out
@@ -1167,6 +1186,8 @@ class Engine:
             ev = self.elem_value(x, ecn, it)
             if ecn and not (isinstance(it, VIter) and getattr(it, "elem_nullable", False)):
                 pass
+            if mapper is not None:
+                ev = mapper(x)
             if enum:
                 ev = VPyTuple([VInt(T.Len(pre)), ev])      # enumerate: the index is the length of the processed prefix
             for (q1, c1) in self.assign(st.target, ev, q):
